@@ -1,5 +1,14 @@
+//! Checks against `astria-composer` (feature `verif`): C16.
+
+mod c16;
+
 fn main() {
-    let (id, _args) = vcommon::split_args();
-    eprintln!("vcomposer does not host property {id} yet");
-    std::process::exit(2);
+    let (id, args) = vcommon::split_args();
+    match id.as_str() {
+        "C16" => c16::run(&args),
+        other => {
+            eprintln!("vcomposer does not host property {other}");
+            std::process::exit(2);
+        }
+    }
 }
